@@ -249,6 +249,7 @@ impl GraphEngine {
             pending_label_additions: Vec::new(),
             pending_label_removals: Vec::new(),
             created_external_ids: std::collections::HashSet::new(),
+            pending_vectors: Vec::new(),
             memtable: MemTable::default(),
         }
     }
@@ -771,6 +772,7 @@ pub struct WriteTxn<'a> {
     pending_label_additions: Vec<(InternalNodeId, LabelId)>,
     pending_label_removals: Vec<(InternalNodeId, LabelId)>,
     created_external_ids: std::collections::HashSet<ExternalId>,
+    pending_vectors: Vec<(InternalNodeId, Vec<f32>)>,
     memtable: MemTable,
 }
 
@@ -909,8 +911,11 @@ impl<'a> WriteTxn<'a> {
     }
 
     // T203: HNSW Support
+    // Staged like every other write: the HNSW index is only touched by `commit`, so a dropped
+    // transaction leaves no vector behind.
     pub fn set_vector(&mut self, id: InternalNodeId, vector: Vec<f32>) -> Result<()> {
-        self.engine.insert_vector(id, vector)
+        self.pending_vectors.push((id, vector));
+        Ok(())
     }
 
     pub fn commit(self) -> Result<()> {
@@ -1195,6 +1200,11 @@ impl<'a> WriteTxn<'a> {
         }
         #[cfg(nervusdb_verif)]
         crate::verif_sched::point("commit.after_node_labels");
+
+        // 4. Apply staged vectors (T203)
+        for (id, vector) in self.pending_vectors {
+            self.engine.insert_vector(id, vector)?;
+        }
 
         if !run.is_empty() {
             self.engine.publish_run(Arc::new(run));
